@@ -566,6 +566,40 @@ func (s *Sched) start() {
 //go:norace
 func (s *Sched) FailCount() int { return s.St.FailFired }
 
+// DeadlockHook is called (once) when all unfinished tasks have been blocked on library
+// synchronisation, with nothing runnable in the process, for DeadlockSamples monitor periods.
+var DeadlockHook func(stacks string)
+
+// DeadlockSamples x ~30 ms of complete standstill before a deadlock is declared.
+var DeadlockSamples = 1500
+
+// nothingRunnable: no goroutine other than the monitor is running or runnable.
+//
+//go:norace
+func (s *Sched) nothingRunnable(buf []byte) bool {
+	n := runtime.Stack(buf, true)
+	text := string(buf[:n])
+	count := 0
+	for i := 0; i+10 < len(text); {
+		j := indexOf(text[i:], "goroutine ")
+		if j < 0 {
+			break
+		}
+		i += j + 10
+		k := indexOf(text[i:], "[")
+		if k < 0 || k > 24 {
+			continue
+		}
+		st := text[i+k+1:]
+		if hasPrefix(st, "running") || hasPrefix(st, "runnable") || hasPrefix(st, "syscall") {
+			count++
+		}
+	}
+	return count <= 1 // the monitor itself is running
+}
+
+func hasPrefix(s, p string) bool { return len(s) >= len(p) && s[:len(p)] == p }
+
 var blockedStates = []string{"chan receive", "chan send", "select", "semacquire", "sync.Cond.Wait", "sync.WaitGroup.Wait",
 	"sync.Mutex.Lock", "sync.RWMutex.RLock", "sync.RWMutex.Lock", "sleep", "IO wait"}
 
@@ -624,6 +658,7 @@ func (s *Sched) monitor() {
 	buf := make([]byte, 1<<20)
 	last := -1
 	still := 0
+	allBlocked := 0
 	for {
 		select {
 		case <-s.stopMon:
@@ -661,8 +696,22 @@ func (s *Sched) monitor() {
 		}
 		if nx < 0 {
 			s.state[cur] = stRunnable
-			continue // everybody is blocked: a deadlock of the tasks themselves; the process watchdog ends the run
+			// every task that is not finished is blocked on synchronisation of the library. If nothing in the
+			// process is runnable either (no goroutine of the library computing something the tasks wait
+			// for) and that stays so for a minute, the calls will never return: a deadlock of the callers.
+			if s.nothingRunnable(buf) {
+				allBlocked++
+			} else {
+				allBlocked = 0
+			}
+			if allBlocked > DeadlockSamples && DeadlockHook != nil {
+				n := runtime.Stack(buf, true)
+				DeadlockHook(string(buf[:n]))
+				return
+			}
+			continue
 		}
+		allBlocked = 0
 		s.St.Degraded++
 		s.Trace = append(s.Trace, SwitchPoint{cur, -2, nx})
 		if s.state[nx] == stParked {
